@@ -143,14 +143,21 @@ pub fn b64_3(b: [u8; 3]) -> String {
 
 /// nonce with the RFC 8489 9.2 nonce cookie: "obMatJos2" + base64(24 feature bits) + rest
 pub fn cookie_nonce(password_algorithms: bool, anonymity: bool, rest: &str) -> String {
-    let mut bits = 0u8;
+    cookie_nonce_bits(password_algorithms, anonymity, 0, rest)
+}
+
+/// Same, with some of the 22 feature bits no RFC has assigned yet set as well (`unassigned` is
+/// masked to them): a newer server announcing features this client does not know; the two
+/// assigned bits keep their meaning.
+pub fn cookie_nonce_bits(password_algorithms: bool, anonymity: bool, unassigned: u32, rest: &str) -> String {
+    let mut bits = unassigned & 0x003F_FFFF;
     if password_algorithms {
-        bits |= 0x80;
+        bits |= 0x80_0000;
     }
     if anonymity {
-        bits |= 0x40;
+        bits |= 0x40_0000;
     }
-    format!("obMatJos2{}{}", b64_3([bits, 0, 0]), rest)
+    format!("obMatJos2{}{}", b64_3([(bits >> 16) as u8, (bits >> 8) as u8, bits as u8]), rest)
 }
 
 pub fn algs_value(list: &[(u16, Vec<u8>)]) -> Vec<u8> {
@@ -274,7 +281,8 @@ impl Responder {
         };
         let rest = format!("n{}x{}", self.seq, rng.below(1000));
         let nonce = if cookie || list.is_some() || anonymity {
-            cookie_nonce(list.is_some(), anonymity, &rest)
+            let unassigned = if rng.chance(1, 4) { rng.next_u32() | 1 << rng.below(22) } else { 0 };
+            cookie_nonce_bits(list.is_some(), anonymity, unassigned, &rest)
         } else {
             rest
         };
@@ -342,7 +350,8 @@ impl Responder {
         let lt = self.lt.clone()?;
         self.seq += 1;
         let nonce = if lt.algs.is_some() || lt.anonymity {
-            cookie_nonce(lt.algs.is_some(), lt.anonymity, &format!("stale{}", self.seq))
+            let unassigned = if self.seq % 4 == 0 { 0x0015_5555 ^ self.seq } else { 0 };
+            cookie_nonce_bits(lt.algs.is_some(), lt.anonymity, unassigned, &format!("stale{}", self.seq))
         } else {
             format!("stale{}", self.seq)
         };
